@@ -67,6 +67,37 @@ def main():
                 return 1
             except Exception:
                 traceback.print_exc()
+        # A data-shape exception (TypeError, ValueError, IndexError, …) raised in HARNESS code while it renders or
+        # compares what the implementation returned means the implementation's output no longer has the form the
+        # correspondence is defined on (e.g. None where a vector is documented): the correspondence cannot be
+        # evaluated, the property is no longer shown to hold -> violation without a failing input, naming the
+        # correspondence.  Resource / process / driver problems (OSError, MemoryError, core.Infra, timeouts) stay
+        # infrastructure errors.
+        shape_errors = (TypeError, ValueError, IndexError, KeyError, AttributeError, AssertionError, ZeroDivisionError,
+                        OverflowError)
+        if isinstance(ex, shape_errors) and not isinstance(ex, (OSError, MemoryError)) and 'ctx' in locals() \
+                and not a.replay:
+            try:
+                hf = [f for f in tb if os.sep + 'harness' + os.sep in os.path.realpath(f.filename)]
+                at = hf[-1] if hf else inner
+                v = {'kind': 'correspondence-break', 'via': 'harness-could-not-interpret-implementation-output',
+                     'broken': 'correspondence {}: the harness raised {} at {}:{} ({}) while rendering / comparing what '
+                               'the implementation returned — its output does not have the form the correspondence is '
+                               'defined on'.format(pid, type(ex).__name__, os.path.basename(at.filename), at.lineno,
+                                                   at.name),
+                     'exception': repr(ex)[:500],
+                     'harness_frames': ['{}:{} {}'.format(os.path.basename(f.filename), f.lineno, f.name)
+                                        for f in tb][-8:],
+                     'note': 'no-failing-input-found'}
+                path = ctx.write_replay([v])
+                try:
+                    ctx.write_evidence(getattr(mod, 'RULE', ''), 'run aborted: ' + v['broken'], 1)
+                except Exception:
+                    pass
+                print('VIOLATION property={} replay={} no-failing-input-found'.format(pid, path))
+                return 1
+            except Exception:
+                traceback.print_exc()
         print('INFRA-ERROR {}: harness exception'.format(pid))
         return 2
 
